@@ -96,7 +96,11 @@ class LiteDRAMAXI2NativeW(Module):
                 w_buffer_level.eq(w_buffer_level - 1)
             )
         ]
-        self.comb += can_write.eq(w_buffer.level > w_buffer_level)
+        # A burst is only started while its ID/response can be queued: id_buffer/resp_buffer have buffer_depth
+        # entries and are written without looking at their sink.ready.
+        can_start = Signal()
+        self.comb += can_start.eq(~aw.first | ((id_buffer.level + resp_buffer.level) < buffer_depth))
+        self.comb += can_write.eq((w_buffer.level > w_buffer_level) & can_start)
 
         # Command ----------------------------------------------------------------------------------
         # Accept and send command to the controller only if:
